@@ -391,8 +391,13 @@ static int bufs_modified(int idx, char *msg)
 	struct buf *b = &bufs[idx];
 	if (!b->lb || !lbuf_modified(b->lb))
 		return 0;
-	if (xaw && b->path[0])
-		return lbuf_save(b->lb, 0, -1, b->path, 0, b->mtime) != NULL;
+	if (xaw && b->path[0]) {
+		if (lbuf_save(b->lb, 0, -1, b->path, 0, b->mtime) != NULL)
+			return 1;
+		lbuf_saved(b->lb, 0);	/* written, as by :w */
+		b->mtime = mtime(b->path);
+		return 0;
+	}
 	if (msg)
 		ex_show(msg);
 	return 1;
